@@ -618,3 +618,66 @@ func (t *SchedTape) Used() int { return t.pos }
 
 // State returns the PRNG state (see sim.Tape.State).
 func (t *SchedTape) State() uint64 { return t.state }
+
+// ---------------------------------------------------------------------------
+// goroutines started by the library itself
+
+// WaitGroup replaces sync.WaitGroup in the instrumented copy.  Without a
+// scheduler it is a plain sync.WaitGroup.  Under the scheduler Wait must not
+// park the OS thread while the task holds the simulator's turn: it polls a
+// counter (read under a real mutex, so that the race detector sees the same
+// Done-before-Wait edges a sync.WaitGroup provides) and yields to the other
+// tasks - the goroutines the library started are tasks, too (see Go).
+type WaitGroup struct {
+	real sync.WaitGroup
+	mu   sync.Mutex
+	n    int
+}
+
+func (w *WaitGroup) Add(delta int) {
+	w.mu.Lock()
+	w.n += delta
+	w.mu.Unlock()
+	w.real.Add(delta)
+}
+
+func (w *WaitGroup) Done() { w.Add(-1) }
+
+func (w *WaitGroup) count() int {
+	w.mu.Lock()
+	defer w.mu.Unlock()
+	return w.n
+}
+
+func (w *WaitGroup) Wait() {
+	if schedOn() {
+		for w.count() > 0 {
+			yieldBlocked(-1)
+		}
+	}
+	w.real.Wait()
+}
+
+//go:norace
+func schedOn() bool { return sched.on }
+
+// simulated machine size reported to the library while tasks are scheduled
+// (the workers themselves run with GOMAXPROCS=1)
+const simCPUs = 8
+
+// GOMAXPROCS replaces runtime.GOMAXPROCS in library code: queries (n < 1)
+// report the simulated machine while the scheduler is active.
+func GOMAXPROCS(n int) int {
+	if n < 1 && schedOn() {
+		return simCPUs
+	}
+	return runtime.GOMAXPROCS(n)
+}
+
+// NumCPU replaces runtime.NumCPU.
+func NumCPU() int {
+	if schedOn() {
+		return simCPUs
+	}
+	return runtime.NumCPU()
+}
